@@ -513,7 +513,7 @@ func interesting(sc []item) bool {
 func TestCheck(t *testing.T) {
 	r := h.New("C07", "fault_enumeration")
 	depth := r.Pick(3, 4)
-	r.Rule(fmt.Sprintf("all publisher scripts of length <= %d over {PUBLISH q1(1), PUBLISH q2(1), PUBLISH q2(1,dup), PUBREL(1), PUBLISH q2(2), PUBREL(2), drop+resume} containing a QoS>0 publish, each first run without faults to count the packets the broker sends/receives per connection, then re-run with every single fault position (connection c, k-th Send or Receive, before/after) x backend acknowledgement mode {sync, late from another goroutine, never}; after the script a completion phase retransmits PUBREL for every id with PUBREC but no PUBCOMP (as a client would) and a SUBSCRIBE fence through the ack queue closes the run. Non-trivial = runs in which a QoS>0 publish reached the backend; distinct by (script, fault, ack mode)", depth))
+	r.Rule(fmt.Sprintf("all publisher scripts of length <= %d over {PUBLISH q1(1), PUBLISH q2(1), PUBLISH q2(1,dup), PUBREL(1), PUBLISH q2(2), PUBREL(2), drop+resume} containing a QoS>0 publish, each first run without faults to count the packets the broker sends/receives per connection, then re-run with every single fault position (connection c, k-th Send or Receive, before/after; longer scripts take every 2nd or 3rd position with an offset that moves with the script index) x backend acknowledgement mode {sync, late from another goroutine, never}; after the script a completion phase retransmits PUBREL for every id with PUBREC but no PUBCOMP (as a client would) and a SUBSCRIBE fence through the ack queue closes the run. Non-trivial = runs in which a QoS>0 publish reached the backend; distinct by (script, fault, ack mode)", depth))
 	r.Assume("what the broker 'received' is taken from its own Log(PacketReceived) report")
 	r.Assume("exactly-once is judged for acknowledged hand-overs (sync/late modes); with a backend that never acknowledges only the absence of PUBACK/PUBCOMP is judged")
 	all := scripts(depth)
@@ -527,7 +527,7 @@ func TestCheck(t *testing.T) {
 		// thorough: add sampled scripts of length 5
 		rng := r.Rand("c07-len5")
 		five := scripts(5)
-		for i := 0; i < 3000; i++ {
+		for i := 0; i < 1200; i++ {
 			s := five[rng.Intn(len(five))]
 			if len(s) == 5 && interesting(s) {
 				list = append(list, s)
@@ -559,8 +559,20 @@ func TestCheck(t *testing.T) {
 				}
 			}
 			// quick tier: the full fault list for short scripts, every 3rd position for length-3 scripts
+			// and in the thorough tier: all positions up to length 3, every 2nd for
+			// length 4, every 3rd for the sampled length-5 scripts (the offset moves
+			// with the script index, so neighbouring scripts cover the other positions)
+			stride := 1
+			switch {
+			case r.Quick() && len(sc) >= 3:
+				stride = 3
+			case !r.Quick() && len(sc) == 4:
+				stride = 2
+			case !r.Quick() && len(sc) >= 5:
+				stride = 3
+			}
 			for fi, f := range faults {
-				if r.Quick() && len(sc) >= 3 && (fi+i)%3 != 0 {
+				if (fi+i)%stride != 0 {
 					continue
 				}
 				f := f
